@@ -2,7 +2,8 @@
 
 Case line (harness/h_C14.cpp, ocaml/C14/driver.ml):
   sugar <kind> <depth> <name> <N> <mintext|-> <maxtext|-> <opts|-> <init> <ops> <minconv|-> <maxconv|->
-    kind    P F I O OE T S1 S5 S16 AI AF AO AT PA PS CO ATM   (OE: rOption on a scoped-enum field;
+    kind    P F I O OE T S1 S5 S16 AI AF AO AT PA PS CO ATM AIW  (OE: rOption on a scoped-enum field;
+            AIW: rArrayI on an int array, initial contents also outside the char range;
             PA/PS: the two ports rParams generates; CO: rCOptionCb(getcode, setcode) with a counting setter,
             init "value,setter invocations"; ATM: rArrayTCbMember, init/state = (other member, member) per element)
     depth   0: the port is dispatched at the root, 1: below the rRecur port "sub/"
@@ -42,19 +43,26 @@ TRUSTED = ["harness/h_C14.cpp: builds a one-port rtosc::Ports at run time from t
            "tools/props/C14.py: Python's int()/float()+struct rounding stand for atoi/(float)atof when the bounds are "
            "handed to the model (any difference shows up as a model/implementation disagreement) and in the Spec oracle",
            "fkey order = IEEE-754 single order on non-NaN values (coq/Ports/SugarModel.v fltb/fneqb)"]
-ASSUMPTIONS = ["declared ranges are non-empty (min <= max) and representable in the field's type (char kinds: "
-               "-128..127); bounds of integer kinds are integers (fractional bounds only on float kinds)",
+ASSUMPTIONS = ["declared bounds are representable in the field's type (char kinds: -128..127); bounds of integer kinds are "
+               "integers (fractional bounds only on float kinds); about 5 % of the ranges of the non-option kinds are "
+               "inverted (min > max): the oracle demands min(max(v,min),max) = max, as C14_clamp states; option kinds "
+               "keep min <= max",
+               "rArrayI on an array wider than char (kind AIW): an element holding a value outside -128..127 (possible "
+               "as initial content only) falls into the finding class arrayI-wide-element "
+               "(C14_arrayI_wide_element_refuted)",
                "every option index lies inside the declared range (the callbacks assert exactly this)",
-               "no NaN: incoming floats, bounds and initial contents are ordered values",
+               "no NaN: incoming floats, bounds and initial contents are ordered values (a case with a NaN is judged "
+               "up to the first op that sends one, ops on an element still holding an initial NaN are skipped; from "
+               "there on only model/implementation agreement is checked)",
                "char-backed kinds (rParam, rArrayI, rParams) are driven with -128..127 only; unknown option "
                "symbols are not sent (both as the property's quantifier says)",
                "one argument per set message, of a type the port's specification lists"]
 
 SCALAR_NUM = ("P", "F", "I", "O")
-ARRAYS = ("AI", "AF", "AO", "AT", "PA", "ATM")
+ARRAYS = ("AI", "AF", "AO", "AT", "PA", "ATM", "AIW")
 TOGGLES = ("T", "AT", "ATM")
 # the port's own argument types an undo event may carry (the alternatives of its "::spec" that hold a number)
-OWN_TAGS = {"P": "c", "F": "f", "I": "i", "O": "ic", "OE": "ic", "CO": "ic", "AI": "i", "AF": "f", "AO": "ic", "PA": "i"}
+OWN_TAGS = {"P": "c", "F": "f", "I": "i", "O": "ic", "OE": "ic", "CO": "ic", "AI": "i", "AF": "f", "AO": "ic", "PA": "i", "AIW": "i"}
 STRLEN = {"S1": 1, "S5": 5, "S16": 16}
 BACK = 16
 INT_MIN, INT_MAX = -2**31, 2**31 - 1
@@ -109,14 +117,14 @@ FTEXT = ["-1.5", "2.5", "0", "1", "-1", "0.1", "-0.1", "0.5", "1e-3", "100", "-1
 
 def gen_case(rng, dist):
     kind = rng.choice(["P", "P", "F", "F", "F", "I", "I", "O", "O", "OE", "T", "S1", "S5", "S16",
-                       "AI", "AI", "AF", "AF", "AO", "AO", "AT", "PA", "PS", "CO", "CO", "ATM"])
+                       "AI", "AI", "AF", "AF", "AO", "AO", "AT", "PA", "PS", "CO", "CO", "ATM", "AIW"])
     depth = rng.choice([0, 0, 1])
     name = rng.choice(NAMES)
     N = rng.choice([1, 2, 3, 4, 5, 7, 8, 10, 11, 15, 16, rng.randint(1, 16)]) if kind in ARRAYS else 0
     mn = mx = None
     mnc = mxc = None
     opts = []
-    if kind in ("P", "AI", "PA"):
+    if kind in ("P", "AI", "PA", "AIW"):
         a, b = pick_int_bounds(rng, -128, 127)
         if kind == "P" and rng.random() < 0.3:
             a, b = 0, 127                       # what rParam itself declares
@@ -157,6 +165,13 @@ def gen_case(rng, dist):
         mn, mx = (None if a is None else str(a)), (None if b is None else str(b))
         mnc, mxc = mn, mx
 
+    # inverted ranges (min > max): the clamp still is "lower bound first, then upper"
+    inverted = False
+    if kind in ("P", "AI", "PA", "AIW", "I", "F", "AF") and mn is not None and mx is not None and rng.random() < 0.05:
+        if (float(mn) if kind in ("F", "AF") else int(mn)) != (float(mx) if kind in ("F", "AF") else int(mx)):
+            mn, mx, mnc, mxc = mx, mn, mxc, mnc
+            inverted = True
+
     # value pools
     def int_pool(lo, hi):
         p = [lo, hi, 0, 1, -1, lo + 1, hi - 1]
@@ -165,8 +180,8 @@ def gen_case(rng, dist):
                 v = py_atoi(t)
                 p += [v, v - 1, v + 1]
         p += [rng.randint(lo, hi) for _ in range(3)]
-        if mn is not None and mx is not None and py_atoi(mn) <= py_atoi(mx):
-            p += [rng.randint(py_atoi(mn), py_atoi(mx)) for _ in range(2)]
+        if mn is not None and mx is not None:
+            p += [rng.randint(min(py_atoi(mn), py_atoi(mx)), max(py_atoi(mn), py_atoi(mx))) for _ in range(2)]
         return [v for v in p if lo <= v <= hi]
 
     def flt_pool():
@@ -192,7 +207,7 @@ def gen_case(rng, dist):
     def rand_val():
         if kind == "P":
             return "c%d" % rng.choice(int_pool(-128, 127))
-        if kind in ("AI", "PA"):
+        if kind in ("AI", "PA", "AIW"):
             return "i%d" % rng.choice(int_pool(-128, 127))
         if kind == "I":
             return "i%d" % rng.choice(int_pool(INT_MIN, INT_MAX))
@@ -214,6 +229,11 @@ def gen_case(rng, dist):
 
     def rand_init_elem():
         if kind in ("P", "AI", "PA", "PS"):
+            return str(rng.choice(int_pool(-128, 127)))
+        if kind == "AIW":
+            # an int array: mostly chars, some elements the macro's char local cannot hold
+            if rng.random() < 0.25:
+                return str(rng.choice([261, 128, -129, 256, -300, 1000, 255, 65536 + 7, INT_MAX, INT_MIN]))
             return str(rng.choice(int_pool(-128, 127)))
         if kind in ("I", "O", "OE", "AO", "CO"):
             return str(rng.choice(int_pool(INT_MIN, INT_MAX)))
@@ -256,8 +276,12 @@ def gen_case(rng, dist):
     dist["digit-in-name"] = dist.get("digit-in-name", 0) + (1 if any(ch.isdigit() for ch in name) else 0)
     dist["bound-absent"] = dist.get("bound-absent", 0) + (1 if (mn is None) != (mx is None) else 0)
     dist["below-root"] = dist.get("below-root", 0) + depth
+    dist["inverted-range"] = dist.get("inverted-range", 0) + (1 if inverted else 0)
+    if kind == "AIW":
+        wide = sum(1 for x in init.split(",")[:N] if not -128 <= int(x) <= 127)
+        dist["AIW-wide-elements"] = dist.get("AIW-wide-elements", 0) + wide
     if kind in ("F", "AF") and ("7fc00000" in init + ";".join(ops) or "ffc00001" in init + ";".join(ops)):
-        dist["nan-tie-only"] = dist.get("nan-tie-only", 0) + 1
+        dist["nan (judged up to the first NaN)"] = dist.get("nan (judged up to the first NaN)", 0) + 1
     return "sugar %s %d %s %d %s %s %s %s %s %s %s" % (
         kind, depth, name, N, mn or "-", mx or "-",
         ",".join("%d=%s" % kv for kv in opts) or "-", init, ";".join(ops), mnc or "-", mxc or "-")
@@ -350,17 +374,39 @@ class Store:
 def is_nan_bits(b):
     return (b & 0x7fffffff) > 0x7f800000
 
-def has_nan(f):
+def nan_scope(f):
+    """NaN is not an ordered value (outside the quantifier).  -> (index of the first op whose
+    incoming value is a NaN, set of elements whose INITIAL content is a NaN).  The ops before
+    that index are judged in full (on elements that do not hold an initial NaN); from the first
+    NaN op on, and for the final contents, only model/implementation agreement is checked."""
+    ops = f[9].split(";")
     if f[1] not in ("F", "AF"):
-        return False
-    vals = [int(x, 16) for x in f[8].split(",")]
-    vals += [int(o.partition("=")[2][1:], 16) for o in f[9].split(";") if o[0] == "s"]
-    return any(is_nan_bits(b) for b in vals)
+        return len(ops), set()
+    first = len(ops)
+    for n, o in enumerate(ops):
+        if o[0] == "s" and is_nan_bits(int(o.partition("=")[2][1:], 16)):
+            first = n
+            break
+    init = [int(x, 16) for x in f[8].split(",")]
+    return first, {i for i, b in enumerate(init) if is_nan_bits(b)}
+
+def stored_before(f, n):
+    """the abstract store just before op n (oracle's own replay of the case)"""
+    st = Store(f)
+    for op in f[9].split(";")[:n]:
+        idxt, _, tv = op[1:].partition("=")
+        elem = int(idxt) if st.kind in ARRAYS else 0
+        if op[0] == "s" and elem < max(st.N, 1) and st.kind not in STRLEN:
+            new = st.clamp(tv)
+            if new is not None:
+                st.vals[elem] = new
+    return st
 
 def spec_check(case, impl):
     f = case.split(" ")
-    if has_nan(f):
-        return None if "#" in impl else "crash: " + impl[:200]
+    nan_from, nan_elems = nan_scope(f)
+    nan_elems = set(nan_elems)
+    soft = None
     if impl.startswith("CRASH") or impl.startswith("NOOUT") or impl.startswith("BAD"):
         return "crash: " + impl[:200]
     st = Store(f)
@@ -378,6 +424,8 @@ def spec_check(case, impl):
         return "format: %d answers for %d ops" % (len(pieces), len(ops))
     numeric = k in OWN_TAGS
     for n, (op, piece) in enumerate(zip(ops, pieces)):
+        if n >= nan_from:
+            break
         body = op[1:]
         idxt, _, tv = body.partition("=")
         elem = 0
@@ -392,6 +440,14 @@ def spec_check(case, impl):
             return "dispatch: op %d (%s) was not delivered: %s" % (n, op, piece)
         loc = "/" + ("sub/" if depth == "1" else "") + name + idxt
         msgs = parse_msgs(piece)
+        if elem in nan_elems:
+            # the element still holds its initial NaN: a set stores the clamped incoming value
+            # whatever was there, the op itself is not judged
+            if op[0] == "s":
+                st.sets += 1
+                st.vals[elem] = st.clamp(tv)
+                nan_elems.discard(elem)
+            continue
         if op[0] == "q":
             # replies the stored value at the port's full address and changes nothing
             if len(msgs) != 1 or msgs[0][0] != "r":
@@ -440,8 +496,12 @@ def spec_check(case, impl):
             want = [[loc.encode().hex(), st.value_text(old), newtxt]] if changed else []
             got = [m[3] for m in un]
             if got != want:
-                return "undo: op %d: undo events %s, expected %s (old %s, stored %s)" % (
+                fail = "undo: op %d: undo events %s, expected %s (old %s, stored %s)" % (
                     n, got, want, st.value_text(old), newtxt)
+                # a failure inside a finding class does not end the evaluation
+                if classify(case, impl, fail) is None:
+                    return fail
+                soft = soft or fail
             # the event carries both values with the port's own argument type: the set-messages an undo
             # history builds from it ("<address> ,<t> <value>") must be accepted by this port again
             for m in un:
@@ -449,6 +509,8 @@ def spec_check(case, impl):
                 if len(ty) != 3 or ty[0] != "s" or ty[1] != ty[2] or ty[1] not in OWN_TAGS[k]:
                     return ("undo-type: op %d: the undo event has type tags %r; a port of kind %s takes ',%s' - the event's "
                             "values would not reach the port again" % (n, ty, k, "' or ',".join(OWN_TAGS[k])))
+    if nan_from < len(ops) or nan_elems:
+        return soft
     # final contents: the clamped / truncated / translated values, nothing else touched
     if k in STRLEN:
         got = bytes.fromhex(final).split(b"\0")[0]
@@ -474,16 +536,36 @@ def spec_check(case, impl):
                 if all(gl[i] == wl[i] for i in range(len(gl)) if i not in touched):
                     cls = "clamp"
             return "%s: final contents %s, expected %s" % (cls, final, want)
-    return None
+    return soft
 
 def canon(case, line):
     return line
 
 def nontrivial(case, impl):
-    return case.count(";") >= 1 and ("b:" in impl) and not has_nan(case.split(" "))
+    return case.count(";") >= 1 and ("b:" in impl) and nan_scope(case.split(" "))[0] > 0
+
+UNDO_OP = __import__("re").compile(r"^undo: op (\d+): ")
 
 def classify(case, impl, failure):
-    return None
+    """arrayI-wide-element: the undo clause fails on an rArrayI port whose elements are wider
+    than char (kind AIW) for a set that addresses an element holding a value outside
+    -128..127 (= the negation of the side condition 'char_range old' of the rArrayI case of
+    numeric_set).  The stored value before the op is recomputed from the case."""
+    f = case.split(" ")
+    m = UNDO_OP.match(failure)
+    if not m or f[1] != "AIW":
+        return None
+    n = int(m.group(1))
+    ops = f[9].split(";")
+    if n >= len(ops) or ops[n][0] != "s":
+        return None
+    try:
+        st = stored_before(f, n)
+        elem = int(ops[n][1:].partition("=")[0])
+        old = st.vals[elem]
+    except (ValueError, IndexError):
+        return None
+    return "arrayI-wide-element" if not -128 <= old <= 127 else None
 
 def minimise(case, impl, failure, run):
     """drop ops one at a time while some Spec failure of the same class remains"""
